@@ -61,12 +61,22 @@ class _Rename(ast.NodeTransformer):
         return self.generic_visit(n)
 
 
+COMPUTED: set = set()          # property names of the package (set by the model before inlining)
+
+
 def _simple(e: ast.AST) -> bool:
-    """expression that may be duplicated / reordered freely"""
+    """expression that may be duplicated / reordered freely: a name, a constant, a chain of plain field reads on a name"""
     if isinstance(e, (ast.Name, ast.Constant)):
         return True
     if isinstance(e, ast.Attribute):
-        return isinstance(e.value, ast.Name) and e.value.id in ("self", "cls")     # self.x : field read (properties of self are few and pure here)
+        if isinstance(e.value, ast.Name) and e.value.id in ("self", "cls"):
+            return True                 # self.x (the properties of self used this way are pure accessors)
+        chain = e
+        while isinstance(chain, ast.Attribute):
+            if chain.attr in COMPUTED:
+                return False
+            chain = chain.value
+        return isinstance(chain, ast.Name)
     return False
 
 
@@ -101,7 +111,9 @@ def _bind(helper: ast.FunctionDef, call: ast.Call, receiver: Optional[ast.AST], 
         if isinstance(x, ast.Name) and isinstance(x.ctx, ast.Load):
             uses[x.id] = uses.get(x.id, 0) + 1
     pre: List[ast.stmt] = []
-    suffix = "__" + helper.name.strip("_")
+    # one suffix per inlined instance: the locals of two inlined calls of the same helper stay distinct (each bound once)
+    _bind.counter[helper.name] = _bind.counter.get(helper.name, 0) + 1
+    suffix = "__" + helper.name.strip("_") + ("" if _bind.counter[helper.name] == 1 else f"_{_bind.counter[helper.name]}")
     rename = {n: n + suffix for n in stored if n not in binding}
     subst: Dict[str, ast.AST] = {}
     for n, a in binding.items():
@@ -112,6 +124,9 @@ def _bind(helper: ast.FunctionDef, call: ast.Call, receiver: Optional[ast.AST], 
         else:
             subst[n] = a
     return subst, pre, rename
+
+
+_bind.counter = {}
 
 
 def _tail_returns(stmts: List[ast.stmt], make) -> List[ast.stmt]:
@@ -134,6 +149,16 @@ def _tail_returns(stmts: List[ast.stmt], make) -> List[ast.stmt]:
                 out.append(ast.copy_location(ast.If(test=st.test, body=body or [ast.Pass()], orelse=orelse), st))
                 return out
             raise _NotInlinable("conditional return that is not terminating")
+        if isinstance(st, ast.With) and _has_return(st) and not any(isinstance(x, (ast.For, ast.While, ast.Try)) and _has_return(x) for x in ast.walk(st)):
+            # `with ctx: B` then `return E` (E plain names / constants / a tuple of them): the final return is evaluated inside the block instead of
+            # after it - same value (only locals are read), and every return inside B then is in tail position of B
+            if all(isinstance(r, ast.Return) for r in rest) and len(rest) <= 1 and \
+                    (not rest or rest[0].value is None or all(isinstance(x, (ast.Name, ast.Constant, ast.Tuple, ast.Load)) for x in ast.walk(rest[0].value))):
+                inner = _tail_returns(list(st.body) + list(rest), make)
+                new_with = ast.copy_location(ast.With(items=st.items, body=inner or [ast.Pass()], type_comment=None), st)
+                out.append(new_with)
+                return out
+            raise _NotInlinable("return inside a with block that is not in tail position")
         if _has_return(st):
             raise _NotInlinable("return inside a loop / try / with")
         out.append(st)
@@ -148,6 +173,8 @@ def _terminates(blk: List[ast.stmt]) -> bool:
     if not blk:
         return False
     last = blk[-1]
+    if isinstance(last, ast.With):
+        return _terminates(last.body)
     if isinstance(last, (ast.Return, ast.Raise)):
         return True
     if isinstance(last, ast.If) and last.orelse:
@@ -155,8 +182,43 @@ def _terminates(blk: List[ast.stmt]) -> bool:
     return False
 
 
+def _returns_to_breaks(body: List[ast.stmt]) -> List[ast.stmt]:
+    """a helper whose last statement is a loop and whose only returns are bare `return`s directly inside that loop (not in a nested loop):
+    leaving the helper there is leaving the loop, so each return is a break"""
+    if not body or not isinstance(body[-1], (ast.For, ast.While)) or body[-1].orelse:
+        return body
+    L = body[-1]
+    rets = [x for s in body for x in ast.walk(s) if isinstance(x, ast.Return)]
+    if not rets or any(r.value is not None and not (isinstance(r.value, ast.Constant) and r.value.value is None) for r in rets):
+        return body
+
+    def direct(stmts) -> List[ast.Return]:
+        out = []
+        for st in stmts:
+            if isinstance(st, ast.Return):
+                out.append(st)
+            elif isinstance(st, (ast.For, ast.While, ast.FunctionDef, ast.AsyncFunctionDef, ast.Try, ast.With)):
+                continue
+            else:
+                for fld in ("body", "orelse"):
+                    sub = getattr(st, fld, None)
+                    if isinstance(sub, list) and sub and isinstance(sub[0], ast.stmt):
+                        out.extend(direct(sub))
+        return out
+    if {id(r) for r in direct(L.body)} != {id(r) for r in rets}:
+        return body
+    new = copy.deepcopy(body)
+
+    class T(ast.NodeTransformer):
+        def visit_Return(self, n):
+            return ast.copy_location(ast.Break(), n)
+    new[-1] = T().visit(new[-1])
+    return new
+
+
 def _helper_body(helper: ast.FunctionDef) -> List[ast.stmt]:
     body = [s for s in helper.body if not (isinstance(s, ast.Expr) and isinstance(s.value, ast.Constant))]
+    body = _returns_to_breaks(body)
     if any(isinstance(x, (ast.Yield, ast.YieldFrom, ast.Await, ast.Global, ast.Nonlocal)) for s in body for x in ast.walk(s)):
         raise _NotInlinable("generator / global")
     if any(isinstance(x, (ast.FunctionDef, ast.ClassDef)) for s in body for x in ast.walk(s)):
@@ -220,6 +282,77 @@ class Inliner:
             ast.fix_missing_locations(s)
         return out
 
+    # ---- generator fusion: `for x in self._gen(args): BODY`  with a single `yield v` in _gen --------------------------------------
+    def inline_generator_loop(self, st: ast.stmt, ctx) -> Optional[List[ast.stmt]]:
+        """the consumer's body runs exactly where the generator yields, when the consumer never leaves or skips an iteration early
+        (no break / continue / return / else) and the generator has one plain `yield v` statement outside try / with"""
+        if not (isinstance(st, ast.For) and not st.orelse and isinstance(st.iter, ast.Call)):
+            return None
+        found = self.lookup(ctx, st.iter.func, generators=True)
+        if found is None:
+            return None
+        helper, receiver, is_method = found
+        body = [s for s in helper.body if not (isinstance(s, ast.Expr) and isinstance(s.value, ast.Constant))]
+        ys = [x for s in body for x in ast.walk(s) if isinstance(x, (ast.Yield, ast.YieldFrom))]
+        if len(ys) != 1 or isinstance(ys[0], ast.YieldFrom) or ys[0].value is None:
+            return None
+        if any(isinstance(x, (ast.Return, ast.Global, ast.Nonlocal, ast.FunctionDef, ast.Lambda, ast.Try, ast.With)) for s in body for x in ast.walk(s)):
+            return None
+
+        def leaves(stmts) -> bool:
+            for s_ in stmts:
+                if isinstance(s_, (ast.Break, ast.Continue, ast.Return)):
+                    return True
+                if isinstance(s_, (ast.For, ast.While)):
+                    if any(isinstance(x, ast.Return) for x in ast.walk(s_)):
+                        return True
+                    continue
+                if isinstance(s_, (ast.FunctionDef, ast.AsyncFunctionDef)):
+                    continue
+                for fld in ("body", "orelse", "finalbody"):
+                    sub = getattr(s_, fld, None)
+                    if isinstance(sub, list) and sub and isinstance(sub[0], ast.stmt) and leaves(sub):
+                        return True
+                for h in getattr(s_, "handlers", []) or []:
+                    if leaves(h.body):
+                        return True
+            return False
+        if leaves(st.body) or any(isinstance(x, (ast.Yield, ast.YieldFrom)) for s_ in st.body for x in ast.walk(s_)):
+            return None
+        try:
+            subst, pre, rename = _bind(helper, st.iter, receiver, is_method)
+        except _NotInlinable:
+            return None
+        tr = _Rename(subst, rename)
+        new_body = [tr.visit(copy.deepcopy(s)) for s in body]
+        the_yield = [x for s in new_body for x in ast.walk(s) if isinstance(x, ast.Yield)][0]
+        placed = [False]
+
+        def place(stmts: List[ast.stmt]) -> List[ast.stmt]:
+            out: List[ast.stmt] = []
+            for s_ in stmts:
+                if isinstance(s_, ast.Expr) and s_.value is the_yield:
+                    out.append(ast.copy_location(ast.Assign(targets=[copy.deepcopy(st.target)], value=the_yield.value), s_))
+                    out.extend(st.body)
+                    placed[0] = True
+                    continue
+                for fld in ("body", "orelse", "finalbody"):
+                    sub = getattr(s_, fld, None)
+                    if isinstance(sub, list) and sub and isinstance(sub[0], ast.stmt):
+                        setattr(s_, fld, place(sub))
+                out.append(s_)
+            return out
+        fused = place(new_body)
+        if not placed[0]:
+            return None          # the yield is not a statement of its own (its value is used)
+        self.count += 1
+        self.log.append(f"generator {helper.name} fused with its consuming loop at line {getattr(st, 'lineno', '?')}")
+        out = pre + fused
+        for s_ in out:
+            ast.copy_location(s_, st) if not hasattr(s_, "lineno") else None
+            ast.fix_missing_locations(s_)
+        return out
+
     # ---- expression level (single `return E` helpers) --------------------------------------------------------
     def inline_expressions(self, node: ast.AST, ctx) -> bool:
         changed = False
@@ -238,12 +371,13 @@ class Inliner:
                 helper, receiver, is_method = found
                 try:
                     body = _helper_body(helper)
-                    if not (len(body) == 1 and isinstance(body[0], ast.Return) and body[0].value is not None):
+                    value = _as_expression(body)
+                    if value is None:
                         return c
                     subst, pre, rename = _bind(helper, c, receiver, is_method)
                     if pre:
                         return c
-                    e = _Rename(subst, rename).visit(copy.deepcopy(body[0].value))
+                    e = _Rename(subst, rename).visit(copy.deepcopy(value))
                 except _NotInlinable:
                     return c
                 changed = True
@@ -254,10 +388,27 @@ class Inliner:
         return changed
 
 
+def _as_expression(body: List[ast.stmt]) -> Optional[ast.AST]:
+    """`return E`  or a chain  `if c1: return E1` ... `return En`  (also with else branches) as one expression (nested conditional expressions)"""
+    if len(body) == 1 and isinstance(body[0], ast.Return) and body[0].value is not None:
+        return body[0].value
+    if body and isinstance(body[0], ast.If) and len(body[0].body) == 1 and isinstance(body[0].body[0], ast.Return) and body[0].body[0].value is not None:
+        rest = body[0].orelse if body[0].orelse else body[1:]
+        if body[0].orelse and body[1:]:
+            return None
+        tail = _as_expression(list(rest))
+        if tail is None:
+            return None
+        return ast.copy_location(ast.IfExp(test=body[0].test, body=body[0].body[0].value, orelse=tail), body[0])
+    return None
+
+
 def _assigns_on_all_paths(stmts: List[ast.stmt], targets) -> bool:
     if not stmts:
         return False
     last = stmts[-1]
+    if isinstance(last, ast.With):
+        return _assigns_on_all_paths(last.body, targets)
     if isinstance(last, ast.Assign) and ast.dump(last.targets[0]) == ast.dump(targets[0]):
         return True
     if isinstance(last, ast.Raise):
@@ -333,7 +484,7 @@ def inline_module_helpers(tree: ast.Module, module_name: str) -> Tuple[int, List
 
     stack: List[str] = []
 
-    def lookup(ctx, func: ast.AST):
+    def lookup(ctx, func: ast.AST, generators: bool = False):
         cname, current = ctx
         if isinstance(func, ast.Name) and func.id in mod_funcs and eligible(mod_funcs[func.id]) and func.id != current and func.id not in stack:
             return mod_funcs[func.id], None, False
@@ -348,9 +499,19 @@ def inline_module_helpers(tree: ast.Module, module_name: str) -> Tuple[int, List
                     return helper, func.value, True
                 if static and func.value.id in ("self", "cls", cname, owner):
                     return helper, None, False
+        if isinstance(func, ast.Attribute) and isinstance(func.value, ast.Name) and func.value.id not in ("self", "cls") and func.attr.startswith("_") \
+                and not func.attr.startswith("__") and func.attr != current and func.attr not in stack:
+            # other._helper(...): a private method defined in exactly one class of this module (and nowhere as a plain function)
+            owners = [(c, m) for c in classes.values() for m in c.body if isinstance(m, ast.FunctionDef) and m.name == func.attr]
+            if len(owners) == 1 and func.attr not in mod_funcs and func.value.id not in classes:
+                c, helper = owners[0]
+                static = any(ast.unparse(d).endswith("staticmethod") for d in helper.decorator_list)
+                if eligible(helper) and not overridden_below(c.name, func.attr) and not static:
+                    return helper, func.value, True
         return None
 
     inl = Inliner(lookup)
+    _bind.counter = {}
 
     tmp_counter = [0]
 
@@ -375,7 +536,7 @@ def inline_module_helpers(tree: ast.Module, module_name: str) -> Tuple[int, List
                 if found is not None and not top:
                     helper = found[0]
                     body = [b for b in helper.body if not (isinstance(b, ast.Expr) and isinstance(b.value, ast.Constant))]
-                    single = len(body) == 1 and isinstance(body[0], ast.Return)
+                    single = _as_expression(body) is not None
                     if not single:
                         tmp_counter[0] += 1
                         name = f"{helper.name.strip('_')}_value_{tmp_counter[0]}"
@@ -434,6 +595,8 @@ def inline_module_helpers(tree: ast.Module, module_name: str) -> Tuple[int, List
                     new: List[ast.stmt] = []
                     for st in blk:
                         r = inl.inline_statement(st, (cname, fn.name))
+                        if r is None:
+                            r = inl.inline_generator_loop(st, (cname, fn.name))
                         if r is None:
                             new.append(st)
                         else:
